@@ -90,11 +90,11 @@ Lemma read_cond_parsed : forall d L, cond_ok d -> rcond_ok d -> (forall e, In e 
             is_action n = false.
 Proof.
   intros d L Hok Hr HL. pose proof (sub_of_in _ _ HL) as Hs. clear HL.
-  destruct d as [neg m h v|neg names|over n|neg m hs ks|neg m hs ks|neg raw m vals|neg zone m part keys|zone r part keys| |];
+  destruct d as [neg m h v|neg names|neg over n|neg m hs ks|neg m hs ks|neg raw m vals|neg zone m part keys|zone r part keys| |];
     cbn [cond_ok rcond_ok cexts] in *; try contradiction.
   - destruct h as [s|l], v as [s2|l2]; try contradiction. cbn [hdr_ok hv_ok] in *. pfacts. destruct neg, m; parsed_shape (@nil bytes) Hs.
   - pfacts. destruct neg; parsed_shape (@nil bytes) Hs.
-  - pose proof (Hdig n Hr). destruct over; parsed_shape (@nil bytes) Hs.
+  - pose proof (Hdig n Hr). destruct neg, over; parsed_shape (@nil bytes) Hs.
   - pfacts. destruct neg, m; parsed_shape [bs "envelope"] Hs.
   - pfacts. destruct neg, raw, m; parsed_shape [bs "body"] Hs.
   - pfacts. destruct neg, m; parsed_shape [bs "date"] Hs.
